@@ -527,4 +527,30 @@ func c26Caller(c *core.Ctx) {
 			"the batch is copied into result[fill:], fill advances by the reported count, result[:fill] of a numRequested-slot buffer is returned", why)
 	}
 	c.Floor("C26/destination-is-unfilled-tail", 1)
+	// the initial-gap test compares with the account nonce last notified: every notification is taken
+	// over (nonces go down on reverts, so "only forward" filters make a gapped sender selectable)
+	if nf := anchorM(c, pkg, "txListForSender", "notifyAccountNonce"); nf != nil && len(nf.Params) == 2 {
+		c.Analysed(fname(nf))
+		setsNonce := func(in ssa.Instruction) bool {
+			cc := core.CallOf(in)
+			if cc == nil || len(cc.Args) < 2 || cc.Args[1] != ssa.Value(nf.Params[1]) {
+				return false
+			}
+			fa, ok := cc.Args[0].(*ssa.FieldAddr)
+			return ok && core.FieldOfAddr(fa).Name() == "accountNonce" && core.CallDesc(cc).Name == "Set"
+		}
+		setsKnown := func(in ssa.Instruction) bool {
+			cc := core.CallOf(in)
+			if cc == nil || len(cc.Args) < 1 {
+				return false
+			}
+			fa, ok := cc.Args[0].(*ssa.FieldAddr)
+			return ok && core.FieldOfAddr(fa).Name() == "accountNonceKnown" && (core.CallDesc(cc).Name == "Set" || core.CallDesc(cc).Name == "SetValue")
+		}
+		e1, p1 := core.PathQ{Fn: nf, Via: setsNonce, Target: core.AnyReturn}.Escape()
+		e2, _ := core.PathQ{Fn: nf, Via: setsKnown, Target: core.AnyReturn}.Escape()
+		c.Check(e1 == nil && e2 == nil, "C26/account-nonce-follows-notification", "txListForSender.notifyAccountNonce", nf.Pos(),
+			"every return has stored the notified nonce and marked it known",
+			"a notification can be dropped without storing the nonce ("+c.P.PathString(p1)+"): the initial-gap test then compares with an outdated account nonce (e.g. after a revert lowered it) and a sender whose lowest pooled nonce is above its account nonce is selected from")
+	}
 }
